@@ -15,6 +15,7 @@ fn describe(kind: &str, toks: &[TokenTree]) -> Option<String> {
     let TokenTree::Literal(l) = toks.first()? else { return None };
     let (bytes, is_bytes) = lit_bytes(l)?;
     let mut prio = "-".to_string();
+    let mut prioval = String::new();
     let mut icase = 0;
     let mut allow_greedy = "-".to_string();
     let mut i = 1;
@@ -25,7 +26,18 @@ fn describe(kind: &str, toks: &[TokenTree]) -> Option<String> {
                 if let TokenTree::Punct(p) = &toks[i + 1] {
                     if p.as_char() == '=' {
                         let v = toks[i + 2].to_string();
-                        if name == "priority" { prio = v } else { allow_greedy = v }
+                        if name == "priority" {
+                            // for a literal that is not a plain run of digits: the value Rust gives it (digit separators,
+                            // radix prefixes, suffixes), which is what the priority must be if the derive accepts the spelling
+                            if !v.chars().all(|ch| ch.is_ascii_digit()) {
+                                if let Some(x) = syn::parse_str::<syn::LitInt>(&v).ok().and_then(|l| l.base10_parse::<u128>().ok()) {
+                                    prioval = format!(" prioval={x}");
+                                }
+                            }
+                            prio = v
+                        } else {
+                            allow_greedy = v
+                        }
                     }
                 }
             }
@@ -52,6 +64,22 @@ fn describe(kind: &str, toks: &[TokenTree]) -> Option<String> {
         items.last_mut().unwrap().push(t);
     }
     let mut cb = 0;
+    // body of an inline closure `|arg| body`: everything after the second `|`; a body that is exactly one braced
+    // block stands for the statements inside (closure syntax), anything else is the expression as written
+    let mut cbbody: Option<String> = None;
+    let closure_body = |toks: &[&TokenTree]| -> Option<String> {
+        let is_bar = |t: &&TokenTree| matches!(t, TokenTree::Punct(p) if p.as_char() == '|');
+        if toks.len() >= 3 && is_bar(&toks[0]) && matches!(toks[1], TokenTree::Ident(_)) && is_bar(&toks[2]) {
+            let rest = &toks[3..];
+            let ts: TokenStream = match rest {
+                [TokenTree::Group(g)] if g.delimiter() == Delimiter::Brace => g.stream(),
+                _ => rest.iter().map(|t| (*t).clone()).collect(),
+            };
+            Some(ts.to_string().replace(' ', ""))
+        } else {
+            None
+        }
+    };
     for (k, it) in items.iter().enumerate().skip(1) {
         let Some(first) = it.first() else { continue };
         let mut named = false;
@@ -60,15 +88,16 @@ fn describe(kind: &str, toks: &[TokenTree]) -> Option<String> {
             match it.get(1) {
                 Some(TokenTree::Punct(p)) if p.as_char() == '=' && it.len() >= 3 && ["priority", "allow_greedy", "callback"].contains(&name.as_str()) => {
                     named = true;
-                    if name == "callback" { cb = 1 }
+                    if name == "callback" { cb = 1; cbbody = closure_body(&it[2..]); }
                 }
                 Some(TokenTree::Group(_)) if name == "ignore" && it.len() == 2 => named = true,
                 _ => {}
             }
         }
-        if !named && k == 1 { cb = 1 }
+        if !named && k == 1 { cb = 1; cbbody = closure_body(&it[..]); }
     }
-    Some(format!("kind={kind} lit={} bytes={} prio={prio} icase={icase} allow_greedy={allow_greedy} cb={cb}", crate::hex(&bytes), is_bytes as u8))
+    let cbbody = cbbody.map(|b| format!(" cbbody={}", crate::hex(b.as_bytes()))).unwrap_or_default();
+    Some(format!("kind={kind} lit={} bytes={} prio={prio} icase={icase} allow_greedy={allow_greedy} cb={cb}{cbbody}{prioval}", crate::hex(&bytes), is_bytes as u8))
 }
 
 fn skip_items(ts: TokenStream, out: &mut Vec<String>) {
